@@ -723,14 +723,37 @@ Proof.
   - apply jin_cons; [exact I|]. apply jin_app; [exact H|]. apply jin_cons; [exact I|apply jin_nil].
 Qed.
 
+Ltac jinp :=
+  repeat first
+    [ apply jin_nil
+    | apply jin_cons; [simpl; repeat (rewrite app_length; simpl); first [exact I|lia]|]
+    | jin_sub
+    | (apply nj_jin; apply plain_nj; eassumption)
+    | apply jin_app ].
+(* reduce / foreach are done through their inversion lemmas (the pattern code sits between the sub-queries) *)
+Ltac not_fold Hc :=
+  lazymatch type of Hc with
+  | compg _ (QReduce _ _ _ _) _ _ _ _ _ _ = _ => fail
+  | compg _ (QForeach _ _ _ _ _) _ _ _ _ _ _ = _ => fail
+  | _ => idtac
+  end.
+
 Lemma comp_jin : forall tco q ce tp cur pc nv sn cq nv' sn', compg tco q ce tp cur pc nv sn = Some (cq, nv', sn') -> jin_ok pc cq.
 Proof.
-  intros tco. qind q; intros ce tp cur pc nv sn cq nv' sn' Hc; try (simpl in Hc; dcomp; try (inversion Hc; subst; clear Hc; jin; fail)).
+  intros tco. qind q; intros ce tp cur pc nv sn cq nv' sn' Hc; try (not_fold Hc; simpl in Hc; dcomp; try (inversion Hc; subst; clear Hc; jin; fail)).
   - (* if *) destruct (is_const1 l0), (is_const1 l1); inversion Hc; subst; clear Hc;
       (destruct l as [|i0 l']; [simpl|cbv iota; remember (i0 :: l') as cc; cbn [tl]]); jin.
   - (* try *) destruct h as [h|]; simpl in *; dcomp; inversion Hc; subst; clear Hc; jin.
   - (* array *) destruct (array_fold q); inversion Hc; subst; clear Hc; jin.
-  - (* foreach *) destruct e as [e|]; simpl in *; dcomp; inversion Hc; subst; clear Hc; jin.
+  - (* reduce *)
+    destruct (comp_reduce_inv _ _ _ _ _ _ _ _ _ _ _ _ _ _ Hc) as (_ & ci & n1 & s1 & cs & n2 & s2 & cp & bs & n2' & cu & Ei & Es & Ep & _ & Eu & ->).
+    apply IHi in Ei. apply IHs in Es. apply IHu in Eu. apply (proj1 pcomp_plain) in Ep. jinp.
+  - (* foreach *)
+    destruct (comp_foreach_inv _ _ _ _ _ _ _ _ _ _ _ _ _ _ _ Hc) as (_ & ci & n1 & s1 & cs & n2 & s2 & cp & bs & n2' & cu & n3 & s3 & cx & Ei & Es & Ep & _ & Eu & Hx & ->).
+    apply IHi in Ei. apply IHs in Es. apply IHu in Eu. apply (proj1 pcomp_plain) in Ep.
+    assert (Hcx : jin_ok (pc + 1 + length ci + 1 + length cs + length cp + 1 + length cu + 2) cx).
+    { destruct e as [e|]; [simpl in IHe; exact (IHe _ _ _ _ _ _ _ _ _ Hx)|destruct Hx as (-> & _); apply jin_nil]. }
+    clear Hx. jinp.
   - (* bind *) (destruct l as [|i0 l']; [simpl in Hc|cbv iota in Hc; remember (i0 :: l') as cc]); dcomp; inversion Hc; subst; clear Hc; jin.
   - (* binop *) change (compg tco (QBinop o a b) ce tp cur pc nv sn) with (compg tco (QBinop o a b) ce None cur pc nv sn) in Hc.
     destruct (comp_binop_inv _ _ _ _ _ _ _ _ _ _ _ Hc) as (_ & _ & cb & nb & s1 & ca & na & Eb & Ea & -> & _).
@@ -775,6 +798,10 @@ Proof.
     apply jin_app; [apply arg_code_jin; eapply jin_eq; [|exact Eb]; lia|].
     apply jin_cons; [exact I|]. apply jin_app; [|jin].
     eapply jin_eq; [|apply arg_code_jin; eapply jin_eq; [|exact Et]; lia]. lia.
+  - (* call1 *) change (compg tco (QCall1 f a) ce tp cur pc nv sn = Some (cq, nv', sn')) in Hc.
+    destruct (comp_call1_inv _ _ _ _ _ _ _ _ _ _ _ _ Hc) as (_ & _ & cb & nb & Eb & -> & _).
+    apply IHa in Eb.
+    apply jin_cons; [exact I|]. apply jin_app; [apply arg_code_jin; eapply jin_eq; [|exact Eb]; lia|jin].
 Qed.
 
 
@@ -958,12 +985,42 @@ Qed.
 
 Lemma comp_scr : forall tco q ce tp cur pc nv sn cq nv' sn', compg tco q ce tp cur pc nv sn = Some (cq, nv', sn') -> scr (envS ce tp) pc cq.
 Proof.
-  intros tco. qind q; intros ce tp cur pc nv sn cq nv' sn' Hc; try (simpl in Hc; dcomp; try (inversion Hc; subst; clear Hc; scrt2; fail)).
+  intros tco. qind q; intros ce tp cur pc nv sn cq nv' sn' Hc; try (not_fold Hc; simpl in Hc; dcomp; try (inversion Hc; subst; clear Hc; scrt2; fail)).
   - (* if *) destruct (is_const1 l0), (is_const1 l1); inversion Hc; subst; clear Hc;
       (destruct l as [|i0 l']; [simpl|cbv iota; remember (i0 :: l') as cc; cbn [tl]]); scrt2.
   - (* try *) destruct h as [h|]; simpl in *; dcomp; inversion Hc; subst; clear Hc; scrt2.
   - (* array *) destruct (array_fold q); inversion Hc; subst; clear Hc; scrt2.
-  - (* foreach *) destruct e as [e|]; simpl in *; dcomp; inversion Hc; subst; clear Hc; scrt2.
+  - (* reduce *)
+    destruct (comp_reduce_inv _ _ _ _ _ _ _ _ _ _ _ _ _ _ Hc) as (_ & ci & n1 & s1 & cs & n2 & s2 & cp & bs & n2' & cu & Ei & Es & Ep & _ & Eu & ->).
+    apply IHi in Ei. apply IHs in Es. apply IHu in Eu. apply (proj1 pcomp_plain) in Ep.
+    assert (W : forall t, envS ce None t -> envS ce tp t) by (apply envS_sub; [auto|intros t r Ht; discriminate]).
+    assert (W3 : forall t, envS (add_vars ce bs) None t -> envS ce tp t).
+    { intros t [(f & n & Hin)|(r & Hr)]; [|discriminate]. left. exists f, n. rewrite add_vars_env in Hin. apply in_app_or in Hin.
+      destruct Hin as [Hin|Hin]; [|exact Hin]. apply in_map_iff in Hin. destruct Hin as (e0 & He & _). discriminate. }
+    apply scr_cons; [exact I|]. apply scr_app; [eapply scr_eq; [|eapply scr_weaken; [exact W|exact Ei]]; lia|].
+    apply scr_cons; [exact I|]. apply scr_cons; [exact I|].
+    apply scr_app; [eapply scr_eq; [|eapply scr_weaken; [exact W|exact Es]]; simpl; repeat (rewrite app_length; simpl); lia|].
+    apply scr_app; [apply nc_scr; apply plain_nc; exact Ep|]. apply scr_cons; [exact I|].
+    apply scr_app; [eapply scr_eq; [|eapply scr_weaken; [exact W3|exact Eu]]; simpl; repeat (rewrite app_length; simpl); lia|].
+    repeat (apply scr_cons; [exact I|]). apply scr_nil.
+  - (* foreach *)
+    destruct (comp_foreach_inv _ _ _ _ _ _ _ _ _ _ _ _ _ _ _ Hc) as (_ & ci & n1 & s1 & cs & n2 & s2 & cp & bs & n2' & cu & n3 & s3 & cx & Ei & Es & Ep & _ & Eu & Hx & ->).
+    apply IHi in Ei. apply IHs in Es. apply IHu in Eu. apply (proj1 pcomp_plain) in Ep.
+    assert (W : forall t, envS ce None t -> envS ce tp t) by (apply envS_sub; [auto|intros t r Ht; discriminate]).
+    assert (W3 : forall tp', (forall t r, tp' = Some (t, r) -> exists r', tp = Some (t, r')) -> forall t, envS (add_vars ce bs) tp' t -> envS ce tp t).
+    { intros tp' Htp t [(f & n & Hin)|(r & Hr)]; [|right; exact (Htp t r Hr)]. left. exists f, n. rewrite add_vars_env in Hin. apply in_app_or in Hin.
+      destruct Hin as [Hin|Hin]; [|exact Hin]. apply in_map_iff in Hin. destruct Hin as (e0 & He & _). discriminate. }
+    assert (Hcx : scr (envS ce tp) (pc + 1 + length ci + 1 + length cs + length cp + 1 + length cu + 2) cx).
+    { destruct e as [e|]; [|destruct Hx as (-> & _); apply scr_nil]. simpl in IHe. apply IHe in Hx.
+      eapply scr_weaken; [|exact Hx]. apply W3. intros t r Hr. destruct tp as [[t' r']|]; simpl in Hr; [|discriminate]. inversion Hr; subst. eauto. }
+    clear Hx.
+    apply scr_cons; [exact I|]. apply scr_app; [eapply scr_eq; [|eapply scr_weaken; [exact W|exact Ei]]; lia|].
+    apply scr_cons; [exact I|].
+    apply scr_app; [eapply scr_eq; [|eapply scr_weaken; [exact W|exact Es]]; simpl; repeat (rewrite app_length; simpl); lia|].
+    apply scr_app; [apply nc_scr; apply plain_nc; exact Ep|]. apply scr_cons; [exact I|].
+    apply scr_app; [eapply scr_eq; [|eapply scr_weaken; [apply (W3 None); intros t r Hr; discriminate|exact Eu]]; simpl; repeat (rewrite app_length; simpl); lia|].
+    apply scr_cons; [exact I|]. apply scr_cons; [exact I|].
+    eapply scr_eq; [|exact Hcx]. simpl; repeat (rewrite app_length; simpl); lia.
   - (* bind *) (destruct l as [|i0 l']; [simpl in Hc|cbv iota in Hc; remember (i0 :: l') as cc]); dcomp; inversion Hc; subst; clear Hc; scrt2.
   - (* binop *) change (compg tco (QBinop o a b) ce tp cur pc nv sn) with (compg tco (QBinop o a b) ce None cur pc nv sn) in Hc.
     destruct (comp_binop_inv _ _ _ _ _ _ _ _ _ _ _ Hc) as (_ & _ & cb & nb & s1 & ca & na & Eb & Ea & -> & _).
@@ -1036,6 +1093,13 @@ Proof.
     apply scr_app; [apply arg_code_scr; eapply scr_eq; [|eapply scr_weaken; [exact W|exact Eb]]; lia|].
     apply scr_cons; [exact I|].
     apply scr_app; [eapply scr_eq; [|apply arg_code_scr; eapply scr_eq; [|eapply scr_weaken; [exact W|exact Et]]; lia]; lia|].
+    apply scr_cons; [exact I|]. apply scr_cons; [exact I|]. apply scr_nil.
+  - (* call1 *) change (compg tco (QCall1 f a) ce tp cur pc nv sn = Some (cq, nv', sn')) in Hc.
+    destruct (comp_call1_inv _ _ _ _ _ _ _ _ _ _ _ _ Hc) as (_ & _ & cb & nb & Eb & -> & _).
+    apply IHa in Eb.
+    assert (W : forall t0, envS ce None t0 -> envS ce tp t0) by (apply envS_sub; [auto|intros t0 r Ht; discriminate]).
+    apply scr_cons; [exact I|].
+    apply scr_app; [apply arg_code_scr; eapply scr_eq; [|eapply scr_weaken; [exact W|exact Eb]]; lia|].
     apply scr_cons; [exact I|]. apply scr_cons; [exact I|]. apply scr_nil.
 Qed.
 
